@@ -102,6 +102,17 @@ class VroomMon(Monitor):
         # the algorithm's distribution any more (the sampler may be built on uniform()); the decision to inject is
         # independent of the real draw, so leaving those pulls out does not bias the pooled frequencies
         self.injected = getattr(getattr(ctx, "inj", None), "n_inj", 0) != self.inj0
+        # position buckets: the first / last cell of a ranked layer, the first / last cell of the whole support
+        self.posp = {"pos_first_of_a_layer": 0.0, "pos_last_of_a_layer": 0.0}
+        self.posid = {}
+        for h in range(1, self.sd + 1):
+            for key, x in (("pos_first_of_a_layer", nl[h][0]), ("pos_last_of_a_layer", nl[h][-1])):
+                self.posp[key] += 1.0 / (h * rk[id(x)][1] * self.Cn)
+                self.posid.setdefault(id(x), []).append(key)
+        self.posp["pos_first_of_the_support"] = 1.0 / (1 * rk[id(nl[1][0])][1] * self.Cn)
+        self.posid.setdefault(id(nl[1][0]), []).append("pos_first_of_the_support")
+        self.posp["pos_last_of_the_support"] = 1.0 / (self.sd * rk[id(nl[self.sd][-1])][1] * self.Cn)
+        self.posid.setdefault(id(nl[self.sd][-1]), []).append("pos_last_of_the_support")
         self.exp = rk  # cell -> (depth, rank) at the moment of the draw: what the pooled frequency monitor needs
         if len(self.calls) != 1:
             # the draw was not made through np.random.choice (or several were): its arguments cannot be observed.
@@ -143,6 +154,11 @@ class VroomMon(Monitor):
         self.obs["~hit|h%02d" % h] += 1
         self.obs["~hit|r%02d" % int(r).bit_length()] += 1
         for key, pb in self.buckets.items():
+            self.obs["~p|" + key] += pb
+            self.obs["~v|" + key] += pb * (1 - pb)
+        for key in self.posid.get(id(cell), []):
+            self.obs["~hit|" + key] += 1
+        for key, pb in self.posp.items():
             self.obs["~p|" + key] += pb
             self.obs["~v|" + key] += pb * (1 - pb)
         return True
